@@ -25,8 +25,8 @@ INF = float('inf')
 
 EXTRACT_V = '''From Coq Require Import Extraction ExtrOcamlBasic QArith.
 Require Import Num C22_Model C19_Model.
-Extraction "C22m.ml" classify maskT calcMask toReport transitionSeen sgn estimateRootTime findEventCandidates event_phase
-  min_window triggered_of periodic_next ts_stepTo ts_init use_okb Qplus Qminus C19_Model.select_t1.
+Extraction "C22m.ml" classify maskT calcMask toReport transitionSeen sgnT estimateRootTime findEventCandidates event_phase
+  min_window triggered_of periodic_next sys_next ts_stepTo ts_init use_okb Qplus Qminus Qred C19_Model.select_t1.
 '''
 
 def fx(s):
@@ -362,7 +362,7 @@ def cmp_log(model_lines, impl_h, ids, where, res, tag):
         res['mismatch'].append((tag, where + 'handler calls: implementation %s, model %s' % ([(i, k, hx(t)) for i, k, t, _, _ in impl_h], [(m[1], m[2], m[3]) for m in mh]))); return
     for m, (idx, kind, t, qa, qb) in zip(mh, impl_h):
         mk = {'S': 'S', 'T': 'T', 'R': 'R'}[m[2]]; ik = {'S': 'S', 'T': 'T', 'TR': 'T', 'R': 'R'}[kind]
-        if int(m[1]) != ids[idx] or mk != ik or not feq(fx(m[3]), t) or not feq(fx(m[4]), qa) or not feq(fx(m[5]), qb, 1e-9):
+        if int(m[1]) != ids[idx] or mk != ik or not feq(fx(m[3]), t) or not feq(fx(m[4]), qa, 1e-12) or not feq(fx(m[5]), qb, 1e-9):
             res['mismatch'].append((tag, where + 'handler call: implementation (handler %d id %d kind %s t=%s qA=%s qB=%s), model (id %s kind %s t=%s qA=%s qB=%s)' %
                                     (idx, ids[idx], kind, hx(t), hx(qa), hx(qb), m[1], m[2], m[3], m[4], m[5]))); return
     res['n_handler_calls'] += len(mh)
@@ -378,7 +378,7 @@ def corr_ts(ctx, drv, exe, nscen, seed, res):
         where = 'TimeStepper scenario %d (%s final=%s everyStep=%s limit=%s, handlers %s): ' % (a['id'], a['name'], a['final'], a['everyStep'], a['limit'], [int(h[2]) for h in a['hs']])
         if a['hs'] != b['hs'] or [t['time'] for t in a['targets']] != [t['time'] for t in b['targets']]:
             res['mismatch'].append(('ts', where + 'runs A and B differ in their scenario')); continue
-        setup = ['TSRESET'] + [' '.join(h[:6 + int(h[5])]) for h in a['hs']] + ['IDS %d ' % len(ids) + ' '.join(str(i) for i in ids)]
+        setup = ['TSRESET', 'CF %d' % res.get('cf', 0)] + [' '.join(h[:6 + int(h[5])]) for h in a['hs']] + ['IDS %d ' % len(ids) + ' '.join(str(i) for i in ids)]
         # cross-check the id assumption on the triggered ones
         info = a['info']; trig_ids = sorted(int(info[4 + 3 * j]) for j in range(int(info[1])))
         want = sorted(ids[i] for i, h in enumerate(a['hs']) if int(h[2]) in (2, 5))
@@ -406,7 +406,7 @@ def corr_ts(ctx, drv, exe, nscen, seed, res):
                 res['mismatch'].append(('ts', w + 'model result %s' % blk[0])); okA = False; break
             if mt[6] != '1':
                 res['mismatch'].append(('ts:contract', w + 'integrator answer violates the contract use_ok: %s' % [l for l in blk if l.startswith('U ')])); okA = False; break
-            if not feq(fx(mt[7]), r['qa']) or not feq(fx(mt[8]), r['qb'], 1e-9):
+            if not feq(fx(mt[7]), r['qa'], 1e-12) or not feq(fx(mt[8]), r['qb'], 1e-9):
                 res['mismatch'].append(('ts', w + 'advanced state after handling: implementation qA=%s qB=%s, model %s %s' % (hx(r['qa']), hx(r['qb']), mt[7], mt[8]))); okA = False; break
             n0 = len(res['mismatch']); cmp_log(blk, r['h'], ids, w, res, 'ts')
             if len(res['mismatch']) != n0: okA = False; break
@@ -432,7 +432,7 @@ def corr_ts(ctx, drv, exe, nscen, seed, res):
             w = where + 'run B stepTo -> %s t=%s: ' % (r['status'], r['t_s'])
             if mt[0] != 'RET' or mt[1] != r['status'] or not feq(fx(mt[2]), r['t']) or not feq(fx(mt[3]), r['adv']) or int(mt[4]) != r['over']:
                 res['mismatch'].append(('ts', w + 'model result %s' % blk[0])); break
-            if not feq(fx(mt[7]), r['qa']) or not feq(fx(mt[8]), r['qb'], 1e-9):
+            if not feq(fx(mt[7]), r['qa'], 1e-12) or not feq(fx(mt[8]), r['qb'], 1e-9):
                 res['mismatch'].append(('ts', w + 'advanced state: implementation qA=%s qB=%s, model %s %s' % (hx(r['qa']), hx(r['qb']), mt[7], mt[8]))); break
             n0 = len(res['mismatch']); cmp_log(blk, r['h'], ids, w, res, 'ts')
             if len(res['mismatch']) != n0: break
@@ -480,11 +480,66 @@ def ts_predicates(a, b, ids, where, res):
                     res['pred_fail'].append(('scheduled_called_exactly_at_time', where + 'run %s: scheduled %d was not called at its times %s (end of run %s)' % (run, i, [hx(x) for x in missing], hx(tend)),
                                              {'mode': 'ts', 'scenario': sc['id'], 'integrator': sc['name'], 'handler': i}))
 
+
+# ------------------------------------------------------------------------------------------------ System-level scheduled-event selection
+def corr_sub2(ctx, drv, exe, n, res):
+    """System::calcTimeOfNextScheduledEvent on systems with several subsystems owning scheduled events, against both
+    variants of the model's loop (as written / clear-before-assign).  Returns the variant the implementation follows."""
+    rc, out, err = sh([exe, 'sub2', str(ctx.seed), str(n)], timeout=300)
+    cases = []; cur = None
+    for l in out.split('\n'):
+        tk = l.split()
+        if not tk: continue
+        if tk[0] == 'SUBCASE': cur = {'spec': tk[1:], 'next': [], 'h': []}; cases.append(cur)
+        elif tk[0] == 'NEXT': cur['next'].append(tk)
+        elif tk[0] == 'H': cur['h'].append(tk)
+    if len(cases) != n:
+        res['mismatch'].append(('sysnext', 'harness produced %d of %d cases: %s' % (len(cases), n, (out + err)[-300:]))); return None
+    cmds = []
+    for c in cases:
+        for q in c['next']:
+            for cf in (0, 1): cmds.append('SYSNEXT %d %s %s %s' % (cf, q[1], q[2], ' '.join(c['spec'])))
+    ans = drive(drv, cmds)
+    if len(ans) != len(cmds):
+        res['mismatch'].append(('sysnext', 'driver answered %d of %d' % (len(ans), len(cmds)))); return None
+    k = 0; agree = {0: 0, 1: 0}; differ = 0; first_bad = {0: None, 1: None}
+    for c in cases:
+        for q in c['next']:
+            impl = (fx(q[3]), [int(x) for x in q[5:]])
+            for cf in (0, 1):
+                a = ans[k].split(); k += 1
+                m = (fx(a[1]), [int(x) for x in a[3:]])
+                if feq(m[0], impl[0]) and m[1] == impl[1]: agree[cf] += 1
+                elif first_bad[cf] is None: first_bad[cf] = 'subsystems %s, t=%s incl=%s: implementation (%s, ids %s), model variant %d (%s, ids %s)' % (' '.join(c['spec']), q[1], q[2], q[3], impl[1], cf, a[1], m[1])
+            if ans[k - 2] != ans[k - 1]: differ += 1
+    total = sum(len(c['next']) for c in cases)
+    res['n_sysnext'] = total; res['sysnext_discriminating'] = differ
+    variant = 0 if agree[0] == total else 1 if agree[1] == total else None
+    if variant is None:
+        res['mismatch'].append(('sysnext', 'System::calcTimeOfNextScheduledEvent follows neither variant of the model: ' + str(first_bad[0]) + ' ; ' + str(first_bad[1])))
+        return None
+    if differ == 0:
+        res['mismatch'].append(('sysnext', 'no generated case discriminates the two variants')); return None
+    res['sysnext_variant'] = 'as written (ids accumulate)' if variant == 0 else 'clear before assign (patch applied)'
+    if variant == 0:
+        # the refutation witness of the Coq theorem, replayed on the implementation: who is called when
+        c0 = cases[0]
+        wrong = [h for h in c0['h'] if h[1] == '0' and fx(h[3]) != 0.5]
+        if wrong:
+            res['findings'].append(('sys-next-ids-accumulate',
+                'System::Guts::calcTimeOfNextScheduledEventImpl never clears the accumulated ids (the comparison follows the assignment): '
+                'default-subsystem handler due at t=0.5 is listed for, and called at, the event of another subsystem at t=0.3125',
+                {'witness': 'default subsystem: ScheduledEventHandler due at 0.5; second subsystem: scheduled event at 0.3125', 'calcTimeOfNextScheduledEvent': [' '.join(q) for q in c0['next']],
+                 'handler_calls': [' '.join(h) for h in c0['h']], 'replay_cmd': '%s sub2 %d 2' % (exe, ctx.seed)}))
+        else:
+            res['mismatch'].append(('sysnext', 'the implementation follows the as-written variant but the witness run shows no wrong call: %s' % c0['h']))
+    return variant
+
 # ------------------------------------------------------------------------------------------------ run
 def new_res():
     return {'mismatch': [], 'pred_fail': [], 'n_table': 0, 'n_root': 0, 'n_fec': 0, 'n_fec_nontrivial': 0, 'n_steps': 0, 'n_events': 0,
             'n_events_compared': 0, 'n_iters_compared': 0, 'iters_hist': {}, 'loc_paths': {}, 'hooks': False, 'samples': [], 'n_pred': 0,
-            'n_handler_calls': 0, 'n_ts_returns': 0, 'n_ts_returns_B': 0, 'ts_status': {}, 'ts_kinds': {}}
+            'n_handler_calls': 0, 'n_ts_returns': 0, 'n_ts_returns_B': 0, 'ts_status': {}, 'ts_kinds': {}, 'findings': [], 'n_sysnext': 0}
 
 def run(ctx):
     ctx.build_repo()
@@ -499,10 +554,12 @@ def run(ctx):
     corr_table(ctx, drv, exe, res)
     corr_root(ctx, drv, exe, 400 if not thorough else 4000, res)
     corr_fec(ctx, drv, exe, 300 if not thorough else 3000, res)
+    variant = corr_sub2(ctx, drv, exe, 40 if not thorough else 400, res)
+    res['cf'] = 1 if variant == 1 else 0
     for sd in seeds:
         corr_loc(ctx, drv, exe, 48 if not thorough else 160, sd, res)
         corr_ts(ctx, drv, exe, 54 if not thorough else 180, sd, res)
-    n = res['n_table'] + res['n_root'] + res['n_fec'] + res['n_steps'] + res['n_ts_returns'] + res['n_ts_returns_B']
+    n = res['n_table'] + res['n_root'] + res['n_fec'] + res['n_sysnext'] + res['n_steps'] + res['n_ts_returns'] + res['n_ts_returns_B']
     distinct = len(res['loc_paths']) + len(res['ts_status']) + len(res['ts_kinds']) + len(res['iters_hist'])
     ctx.add_cases(n, distinct, res['samples'][:6])
     ctx.cov['rule'] = ('one evaluation = one table row, one estimateRootTime call, one findEventCandidates call, one internal step of a real '
@@ -532,6 +589,9 @@ def run(ctx):
         seenp.add(key)
         ctx.report('impl:' + key, 'implementation violates the C22 clause %s: %s' % (key, desc), dict(obj, replay_cmd='%s <mode> %d <n>' % (exe, ctx.seed)))
     ctx.extra['predicate_failures'] = len(res['pred_fail'])
+    ctx.extra['system_level_next_event_queries'] = res['n_sysnext']; ctx.extra['system_level_loop_variant'] = res.get('sysnext_variant')
+    for key, desc, obj in res['findings']:
+        ctx.report(key, desc, obj)
     ctx.assumptions += [
         'theorems about the numeric part are over the reals (ROps); binary64 is covered only by the exact/1e-15 comparison of the extracted float instance with the implementation',
         'trigger values at interpolated times are an oracle e(t) in the theorems (any function); in the tie the witness functions depend on time only, so e is known exactly',
